@@ -354,3 +354,203 @@ impl Engine for OpSim {
         out
     }
 }
+
+// ---------------------------------------------------------------- C22 on Optimism
+
+/// C22, Optimism half: the same history on a reward-on and a reward-off Optimism EVM with
+/// handler reconfigurations in between. With rewards off neither the beneficiary nor the
+/// three fee vaults may receive anything; results and all other accounts must be equal.
+#[derive(Clone, Debug, Serialize, Deserialize)]
+pub struct OpRewardCase {
+    pub base: OpCase,
+    /// reconfiguration ops applied (to both twins) before transaction i
+    pub reconf: Vec<Vec<crate::e1_twin::HOp>>,
+}
+
+pub struct OpRewardSim;
+
+fn build_op_sys(w: &World, reward: bool) -> Sys {
+    let spec = w.cfg.spec_id();
+    let bottom = FaultyDb::new(w.disk.clone());
+    {
+        let mut i = bottom.0.borrow_mut();
+        i.lazy_code = w.cfg.lazy_code;
+        i.empty_as_none = w.cfg.empty_as_none;
+        i.state_clear = true;
+    }
+    let db = AnyDb::build(w.cfg.stack, bottom.clone(), true);
+    let mut evm = Evm::builder().with_db(db).with_external_context(make_insp(InspKind::None)).with_handler(Handler::optimism_with_spec(spec, reward)).build();
+    apply_block(&mut evm.context.evm.env, &w.block, spec);
+    evm.context.evm.env.cfg.chain_id = 1;
+    Sys { evm: Some(evm), bottom, cfg: w.cfg.clone() }
+}
+
+impl Engine for OpRewardSim {
+    type Case = OpRewardCase;
+    fn label(&self) -> String {
+        "opsim/C22".into()
+    }
+
+    fn generate(&self, rng: &mut Rng) -> OpRewardCase {
+        use crate::e1_twin::HOp;
+        let mut base = OpSim.generate(rng);
+        for t in base.txs.iter_mut() {
+            // no database faults: the reward-on twin loads four more accounts
+            t.faults = FaultPlan::default();
+        }
+        let mut reconf = Vec::new();
+        for _ in 0..base.txs.len() {
+            let mut ops = Vec::new();
+            for _ in 0..rng.below(3) {
+                ops.push(match rng.below(5) {
+                    0 => HOp::SetSpec { spec: spec_name(*rng.pick(OP_SPECS)), how: rng.below(2) as u8 },
+                    1 => HOp::AppendNoopRegister,
+                    2 => HOp::PopRegister,
+                    3 => HOp::Rebuild,
+                    _ => HOp::AdvanceBlock { by: rng.range(1, 3) },
+                });
+            }
+            reconf.push(ops);
+        }
+        OpRewardCase { base, reconf }
+    }
+
+    fn execute(&self, case: &OpRewardCase, stats: &mut Stats) -> Vec<Violation> {
+        use crate::e1_twin::{apply_reconfig, HOp};
+        let w = &case.base.world;
+        let mut on = build_op_sys(w, true);
+        let mut off = build_op_sys(w, false);
+        let (mut block_on, mut block_off) = (w.block.clone(), w.block.clone());
+        let (mut noop_on, mut noop_off) = (0u32, 0u32);
+        let parties = [("beneficiary", w.block.coinbase), ("base-fee-vault", BASE_FEE_RECIPIENT), ("l1-fee-vault", L1_FEE_RECIPIENT), ("operator-fee-vault", OPERATOR_FEE_RECIPIENT)];
+        let is_party = |a: &Address| parties.iter().any(|(_, p)| p == a);
+        let mut universe = w.universe.clone();
+        universe.extend(w.disk.accounts.keys().cloned());
+        universe.sort();
+        universe.dedup();
+        let mut out = Vec::new();
+        let mut fp = Hasher64::new();
+        fp.s(&w.cfg.spec);
+        let mut last_reconfig = "none".to_string();
+        let mut party_involved = false;
+        let mut executed = 0u64;
+        for (i, op) in case.base.txs.iter().enumerate() {
+            for r in case.reconf.get(i).map(|v| v.as_slice()).unwrap_or(&[]) {
+                apply_reconfig(&mut on, r, &mut block_on, &mut noop_on);
+                apply_reconfig(&mut off, r, &mut block_off, &mut noop_off);
+                let name = match r {
+                    HOp::SetSpec { how: 0, .. } => "modify_spec_id",
+                    HOp::SetSpec { .. } => "with_spec_id",
+                    HOp::AppendNoopRegister => "append_handler_register",
+                    HOp::PopRegister => "pop_handle_register",
+                    HOp::Rebuild => "modify_build",
+                    _ => "",
+                };
+                if !name.is_empty() {
+                    last_reconfig = name.to_string();
+                    stats.inc(&format!("ops.{name}"));
+                    fp.s(name);
+                }
+            }
+            if is_party(&op.tx.caller) || op.tx.to.map(|t| is_party(&t)).unwrap_or(false) {
+                party_involved = true;
+                stats.inc("probe.fee_party_is_sender_or_target");
+            }
+            let mut results = Vec::new();
+            for sys in [&mut on, &mut off] {
+                let env = &mut sys.evm().context.evm.env;
+                apply_tx(env, &op.tx);
+                env.tx.optimism.source_hash = if op.deposit { Some(B256::with_last_byte(1)) } else { None };
+                env.tx.optimism.mint = op.mint;
+                env.tx.optimism.is_system_transaction = Some(op.system);
+                env.tx.optimism.enveloped_tx = Some(op.enveloped.clone());
+                let r = match classify(sys.evm().transact()) {
+                    Ok(rs) => {
+                        sys.commit(rs.state);
+                        TxOutcome::Ok(rs.result)
+                    }
+                    Err(o) => o,
+                };
+                results.push(r);
+            }
+            let kind = if op.system { "system" } else if op.deposit { "deposit" } else { "regular" };
+            stats.inc(&format!("outcome.{kind}.{}", results[0].class().split(':').next().unwrap_or("")));
+            fp.s(kind).s(&results[0].class());
+            if let TxOutcome::Ok(r) = &results[0] {
+                executed += 1;
+                fp.u(r.gas_used());
+                if last_reconfig != "none" {
+                    stats.inc(&format!("probe.tx_after_{last_reconfig}"));
+                }
+            }
+            if !party_involved && results[0] != results[1] {
+                out.push(Violation::new("C22", "C22.op-twin-result", &[("after", last_reconfig.clone())], format!("tx {i} ({kind}): reward-on {:?} vs reward-off {:?}", results[0], results[1])));
+                break;
+            }
+        }
+        if out.is_empty() && !party_involved && executed > 0 {
+            if let (Ok(mut s_on), Ok(mut s_off)) = (on.logical_state(&universe, &w.slots, true), off.logical_state(&universe, &w.slots, true)) {
+                stats.inc("probe.op_reward_off_history_evaluated");
+                let mut paid = false;
+                for (name, p) in parties {
+                    let before = w.disk.balance(&p);
+                    let got = s_off.balance(&p);
+                    if got != before {
+                        out.push(Violation::new("C22", "C22.op-no-reward", &[("party", name.into()), ("after", last_reconfig.clone())], format!("rewards disabled, yet the {name} {p} went from {before} to {got} (last reconfiguration: {last_reconfig})")));
+                    }
+                    if s_on.balance(&p) != before {
+                        paid = true;
+                    }
+                    s_on.accounts.remove(&p);
+                    s_off.accounts.remove(&p);
+                }
+                if paid {
+                    stats.inc("probe.reward_on_twin_paid_fees");
+                }
+                if s_on != s_off {
+                    let who = s_on.accounts.keys().chain(s_off.accounts.keys()).find(|k| s_on.accounts.get(*k) != s_off.accounts.get(*k)).cloned();
+                    out.push(Violation::new("C22", "C22.op-twin-state", &[("after", last_reconfig.clone())], format!("accounts other than the fee parties differ between reward-on and reward-off at {who:?}: {:?} vs {:?}", who.and_then(|k| s_on.accounts.get(&k).cloned()), who.and_then(|k| s_off.accounts.get(&k).cloned()))));
+                }
+            }
+        }
+        if executed > 0 {
+            stats.fingerprint(fp.finish());
+        }
+        if stats.samples.is_empty() {
+            stats.samples.push(json!({"engine": "opsim/C22", "spec": w.cfg.spec, "stack": format!("{:?}", w.cfg.stack), "reconf": format!("{:?}", case.reconf), "txs": case.base.txs.len()}));
+        }
+        out
+    }
+
+    fn shrink(&self, case: &OpRewardCase) -> Vec<OpRewardCase> {
+        let mut out = Vec::new();
+        for i in 0..case.base.txs.len() {
+            if case.base.txs.len() > 1 {
+                let mut c = case.clone();
+                c.base.txs.remove(i);
+                if i < c.reconf.len() {
+                    let moved = c.reconf.remove(i);
+                    if i < c.reconf.len() {
+                        let mut m = moved;
+                        m.extend(c.reconf[i].drain(..));
+                        c.reconf[i] = m;
+                    }
+                }
+                out.push(c);
+            }
+        }
+        for (i, ops) in case.reconf.iter().enumerate() {
+            for j in 0..ops.len() {
+                let mut c = case.clone();
+                c.reconf[i].remove(j);
+                out.push(c);
+            }
+        }
+        for b in OpSim.shrink(&case.base) {
+            if b.txs.len() == case.base.txs.len() {
+                out.push(OpRewardCase { base: b, reconf: case.reconf.clone() });
+            }
+        }
+        out
+    }
+}
